@@ -322,14 +322,29 @@ def gen_rec_nested(rng, faults=True, n_max=10, **kw):
 def gen_oneof_rec(rng, faults=True, n_max=9, **kw):
     """a recurrent subgraph that lies completely inside the private sub-pipeline of one one-of candidate (or switch
     case): start, path, destination and all their readers are private nodes of that sub-pipeline"""
-    base = rng.choice(['oneof'])
+    base = rng.choice(['oneof', 'oneof', 'oneof_nested', 'switch', 'mix_main'])
     for _ in range(80):
         spec = gen_constructs(rng, dict(CFG[base], p_shared_prefix=0.0), faults=faults, n_max=n_max, **kw)
         main = main_scope_nodes(spec)
         private = {n['name'] for n in spec['nodes']} - main
 
+        nodes_ = {n['name']: n for n in spec['nodes']}
+        lazy_members = set()
+        for n in spec['nodes']:
+            for _, m in n.get('params', ()):
+                if m[0] == 'Switch':
+                    lazy_members.update(c for _, c in m[3])
+                    lazy_members.add(m[2])
+                elif m[0] == 'OneOf':
+                    lazy_members.update(m[1])
+
         def ok(start, dest, P, consumers_of_P):
-            return start in private and dest in private and P <= private and consumers_of_P <= private
+            if not (start in private and dest in private and P <= private and consumers_of_P <= private):
+                return False
+            # the path itself is plain: no construct consumer on it, no case / candidate / decider on it
+            if P & lazy_members:
+                return False
+            return not any(m[0] in ('Switch', 'OneOf') for x in P for _, m in nodes_[x].get('params', ()))
 
         if overlay_rec(rng, spec, accept=ok):
             spec['class'] = 'oneof_rec'
